@@ -183,12 +183,97 @@ let run_schc op =
             String.concat " " (List.map (fun f -> Printf.sprintf "%s%d/%d/%s" (string_of_proto f.f_id.fproto) (int_of_z f.f_id.fidx) (int_of_z f.f_pos) (string_of_bits f.f_val)) fs)
             ^ " | " ^ string_of_bits pl)
       (factory st b)
+  | "parsesem" ->
+    let b = next_bits () in
+    show (fun (fs, n) ->
+            String.concat " " (List.map (fun f -> Printf.sprintf "%s%d/%d/%s" (string_of_proto f.f_id.fproto) (int_of_z f.f_id.fidx) (int_of_z f.f_pos) (string_of_bits f.f_val)) fs)
+            ^ " | " ^ string_of_int (int_of_z n))
+      (parse_coap_semantic b)
+  | "unparse" ->
+    let fs = read_fields () in
+    show (fun l -> String.concat " " (List.map (fun (f, v) -> Printf.sprintf "%s%d/%s" (string_of_proto f.fproto) (int_of_z f.fidx) (string_of_bits v)) l))
+      (coap_unparse fs)
   | "cmcompressp" ->   (* full manager path with the model parser *)
     let st = (match next () with "IPv6-UDP-CoAP" -> IPv6_UDP_CoAP | "IPv4-UDP-CoAP" -> IPv4_UDP_CoAP | "IPv4" -> S_IPv4
               | "IPv6" -> S_IPv6 | "UDP" -> S_UDP | "CoAP" -> S_CoAP | _ -> S_SCTP) in
     let b = next_bits () in let d = dir_of (next ()) in
     let strat = (match next () with "F" -> FIRST | _ -> BEST) in let rules = read_rules () in
     show string_of_bits (cm_compress (factory st) rules b d strat)
+  | _ -> "BADOP " ^ op
+
+
+(* ---- JSON layer ------------------------------------------------------------------------------- *)
+let key_name = function
+  | K_content -> "content" | K_length -> "length" | K_padding -> "padding" | K_index -> "index" | K_value -> "value" | K_id -> "id"
+  | K_position -> "position" | K_fields -> "fields" | K_direction -> "direction" | K_payload -> "payload" | K_raw -> "raw"
+  | K_target_value -> "target_value" | K_matching_operator -> "matching_operator" | K_cda -> "compression_decompression_action"
+  | K_nature -> "nature" | K_field_descriptors -> "field_descriptors" | K_description -> "description"
+  | K_interface_id -> "interface_id" | K_parser_id -> "parser_id" | K_ruleset -> "ruleset"
+let rec show_json = function
+  | JHex bs -> "\"" ^ (if bs = [] then "" else hex_of_bytes bs) ^ "\""
+  | JNum n -> string_of_int (int_of_z n)
+  | JSide LEFT -> "\"left\"" | JSide RIGHT -> "\"right\""
+  | JDir Up -> "\"Up\"" | JDir Dw -> "\"Dw\"" | JDir Bi -> "\"Bi\""
+  | JMo MO_equal -> "\"equal\"" | JMo MO_ignore -> "\"ignore\"" | JMo MO_msb -> "\"MSB\"" | JMo MO_mapping -> "\"match-mapping\""
+  | JCda NotSent -> "\"not-sent\"" | JCda LSB -> "\"least-significant-bits\"" | JCda MappingSent -> "\"mapping-sent\""
+  | JCda ValueSent -> "\"value-sent\"" | JCda Compute -> "\"compute\""
+  | JNature Compression -> "\"compression\"" | JNature NoCompression -> "\"no-compression\""
+  | JFid f -> "\"f" ^ string_of_proto f.fproto ^ string_of_int (int_of_z f.fidx) ^ "\""
+  | JText t -> "\"t" ^ string_of_int (int_of_z t) ^ "\""
+  | JList l -> "[" ^ String.concat "," (List.map show_json l) ^ "]"
+  | JObj l -> "{" ^ String.concat "," (List.map (fun (k, v) -> key_name k ^ ":" ^ show_json v) l) ^ "}"
+
+let next_buf () = buf_of_string (next ())
+let read_jtv () =
+  match next () with
+  | "b" -> JTVbuf (next_buf ())
+  | _ -> let k = next_int () in JTVmap (repeat_read k (fun () -> let v = next_buf () in let i = next_buf () in (v, i)))
+let read_jrfd () =
+  let id = read_fid () in
+  let len = next_int () in
+  let pos = next_int () in
+  let d = dir_of (next ()) in
+  let m = (match next () with "e" -> MO_equal | "i" -> MO_ignore | "m" -> MO_msb | _ -> MO_mapping) in
+  let c = (match next () with "n" -> NotSent | "l" -> LSB | "m" -> MappingSent | "v" -> ValueSent | _ -> Compute) in
+  let t = read_jtv () in
+  { j_id = id; j_len = z_of_int len; j_pos = z_of_int pos; j_dir = d; j_tv = t; j_mo = m; j_cda = c }
+let read_jrule () =
+  let _ = next () in
+  let id = next_buf () in
+  let nat = (match next () with "C" -> Compression | _ -> NoCompression) in
+  let n = next_int () in
+  { jr_id = id; jr_nature = nat; jr_fds = repeat_read n read_jrfd }
+let read_jcontext () =
+  let a = next_int () in let b = next_int () in let c = next_int () in let d = next_int () in
+  let n = next_int () in
+  { jc_id = z_of_int a; jc_description = z_of_int b; jc_interface = z_of_int c; jc_parser = z_of_int d; jc_rules = repeat_read n read_jrule }
+let read_jpdesc () =
+  let d = dir_of (next ()) in
+  let n = next_int () in
+  let fs = repeat_read n (fun () -> let id = read_fid () in let pos = next_int () in let v = next_buf () in { jf_id = id; jf_val = v; jf_pos = z_of_int pos }) in
+  let pl = next_buf () in let raw = next_buf () in
+  { jp_dir = d; jp_fields = fs; jp_payload = pl; jp_raw = raw }
+
+(* result: <json text> <reloaded == original: 1/0> <re-serialisation identical: 1/0> *)
+let rt to_json from_json x =
+  match to_json x with
+  | Ok j -> (match from_json j with
+             | Ok x' -> "OK " ^ show_json j ^ " " ^ (if x' = x then "1" else "0") ^ " " ^ (match to_json x' with Ok j' -> if j' = j then "1" else "0" | _ -> "0")
+             | Exc e -> "OK " ^ show_json j ^ " LOADEXC:" ^ exn_name e ^ " 0"
+             | Diverge -> "DIVERGE")
+  | Exc e -> "EXC " ^ exn_name e
+  | Diverge -> "DIVERGE"
+
+let run_json op =
+  match op with
+  | "buffer" -> rt (fun b -> Ok (buf_to_json b)) buf_from_json (next_buf ())
+  | "mapping" -> let k = next_int () in
+    let fw = repeat_read k (fun () -> let v = next_buf () in let i = next_buf () in (v, i)) in
+    rt mm_to_json mm_from_json fw
+  | "rfd" -> rt rfd_to_json rfd_from_json (read_jrfd ())
+  | "rule" -> rt rule_to_json rule_from_json (read_jrule ())
+  | "context" -> rt context_to_json context_from_json (read_jcontext ())
+  | "pdesc" -> rt (fun p -> Ok (pdesc_to_json p)) pdesc_from_json (read_jpdesc ())
   | _ -> "BADOP " ^ op
 
 let () =
@@ -202,6 +287,8 @@ let () =
         | "B" :: op :: args -> (try run_buffer op args with Failure m -> "FAIL " ^ m | Stack_overflow -> "FAIL stack")
         | "S" :: op :: args -> (toks := Array.of_list args; cur := 0;
                                 try run_schc op with Failure m -> "FAIL " ^ m | Stack_overflow -> "FAIL stack" | Invalid_argument m -> "FAIL " ^ m)
+        | "J" :: op :: args -> (toks := Array.of_list args; cur := 0;
+                                try run_json op with Failure m -> "FAIL " ^ m | Invalid_argument m -> "FAIL " ^ m)
         | op :: _ -> "BADLAYER " ^ op in
       print_string out; print_newline ()
     done
